@@ -34,8 +34,35 @@ class Stream(io.BytesIO):
     pass
 
 
+def build_encode(variant, i):
+    import re
+    m = re.match(r'(\d)children-depth(\d)', variant)
+    nchildren, depth = int(m.group(1)), int(m.group(2))
+    g = lambda k: int(i[k])
+
+    class Blob(mp4.Mp4Atom):
+        """a box whose fields are `nfields` opaque bytes"""
+        def encode_fields(self, dest):
+            dest.write(b'\xAB' * self.nfields)
+    kids = [Blob(atom_type='chld', position=0, size=0, nfields=max(0, g(f'child{k}_size') - 8)) for k in range(nchildren)]
+    box = Blob(atom_type='moof', position=g('old_position'), size=g('old_size'), nfields=max(0, g('fields_len')),
+               children=kids if nchildren else None)
+    dest = io.BytesIO()
+    before = bytes((k * 7) % 251 for k in range(max(0, g('p0'))))
+    dest.write(before)
+    env = {'self': box, 'dest': dest, 'depth': depth, '__kids__': kids, 'p0': g('p0'), 'fields_len': g('fields_len'),
+           'stream_end': lambda d: len(d.getvalue()), 'at_end': lambda d: d.tell() == len(d.getvalue()),
+           'size_field': lambda d, pos: int.from_bytes(d.getvalue()[pos:pos + 4], 'big'),
+           'prefix_untouched': lambda d: d.getvalue()[:len(before)] == before}
+    for k in range(3):
+        env[f'child{k}_size'] = int(i.get(f'child{k}_size', 8))
+    return {'env': env, 'old_env': dict(env), 'call': lambda: box.encode(dest=dest, depth=depth)}
+
+
 def build(key, variant, i):
     qual = key.split(':')[1]
+    if qual == 'Mp4Atom.encode':
+        return build_encode(variant, i)
     if qual == 'TrackFragmentDecodeTimeBox.__setattr__':
         box = mp4.TrackFragmentDecodeTimeBox(atom_type='tfdt', position=0, size=16, version=int(i['version']), flags=0,
                                              base_media_decode_time=int(i['bmdt']) if int(i['version']) == 1 else min(int(i['bmdt']), 2**32 - 1))
